@@ -355,6 +355,33 @@ def s7(ctx, rid):
         raise core.AnchorLost('no positional header rewrite in FileIndexTrait::from_records impls')
 
 
+def s8(ctx, rid, only_sync=True):
+    import flags
+    prog = ctx.prog
+    sites = flags.bool_flag_sites(prog)
+    guards = flags.drop_guards_for(prog, sites)
+    L, E = prog.may_reach()
+    n = 0
+    for field, st in sorted(sites.items()):
+        if not st['set']:
+            continue
+        if only_sync:
+            # flags guarding a sync: a function that sets the flag can reach a raw file sync
+            if not any(any(e in prims.RAW_SYNC for e in E.get(prog.fns[f.id].root, ())) or any(e in prims.RAW_SYNC for e in E.get(f.id, ())) for (f, c) in st['set']):
+                continue
+        for r in flags.check_pairing(prog, field, st, guards):
+            ok, key, where, detail = r[0], r[1], r[2], r[3]
+            n += 1
+            if ok is None:
+                ctx.ok(rid, key, where, detail, nontrivial=False)
+            elif ok:
+                ctx.ok(rid, key, where, detail)
+            else:
+                ctx.bad(rid, key, where, detail, witness=r[4] if len(r) > 4 else None)
+    if not any(f == 'fsync_in_progress' for f in sites):
+        raise core.AnchorLost('fsync_in_progress flag')
+
+
 RULES = [
     Rule('C12.S1', 'every ok-return of the blob constructor is preceded by the header append and then a completed ok file sync', s1, 2),
     Rule('C12.S2', 'every index dump / index-file construction call is dominated by an ok sync of the blob file (in the function or in every caller)', s2, 3),
@@ -363,4 +390,5 @@ RULES = [
     Rule('C12.S5', 'every append to the active blob feeds the dirty-byte check (on every path to the ok-return in the write path); every check controls a sync request on its true edge; the worker handler reaches a sync', s5, 5),
     Rule('C12.S6', 'the synced-size counter is only advanced by fetch_max after an ok sync_all, with a size captured before the sync', s6, 2),
     Rule('C12.S7', 'in index construction the written-flag rewrite follows the ok body append and is followed by an ok sync', s7, 1),
+    Rule('C12.S8', 'every boolean in-progress / request-pending flag that was set is released on every exit (drop guard or explicit clear on all paths): the sync it guards is never suppressed for ever', s8, 1),
 ]
